@@ -34,11 +34,12 @@ func init() {
 		},
 		RaceOwner: func(fns []string) bool { return true },
 		Phases: func(tier string) []runner.Phase {
-			n := 240
+			n, cw := 240, 24
 			if tier == "thorough" {
-				n = 8000
+				n, cw = 8000, 480
 			}
 			return []runner.Phase{
+				{Name: "close-at-wake", Variant: "race", Cases: cw, Run: closeAtWake, CaseTimeout: 60 * time.Second, Required: []string{"close_at_wake_cases", "close_reached_stop_while_parked"}},
 				{Name: "close-vs-reconnect", Variant: "race", Cases: n * 2, Run: c17closeReconnect, CaseTimeout: 40 * time.Second, Required: []string{"closes_checked"}},
 				{Name: "scenarios", Variant: "race", Cases: n, Run: c17case, CaseTimeout: 60 * time.Second,
 					Required: []string{"fill_storms", "api_mixes", "close_races", "closes_checked", "pool_samples", "control_loss_before_close"}},
